@@ -107,7 +107,6 @@ PROPS = {
         "verus": ["coordinate"],
         "kani": ["apollo-compiler/coordinate.rs"],
         "frame": ["coordinate_display_formats"],
-        "witness": {"files": ["apollo-compiler/coordinate.rs"], "tag": "C23"},
         "technique": "Verus contracts on the five extracted from_str bodies against existential grammar forms over Seq<char> (unbounded); bounded Kani harnesses tie the shims to the real code",
         "explanation": "Verus proves for every string of any length that TypeCoordinate / TypeAttributeCoordinate / FieldArgumentCoordinate / DirectiveCoordinate / "
                        "DirectiveArgumentCoordinate::from_str return Ok iff the string has the form Name | Name.Name | Name.Name(Name:) | @Name | @Name(Name:), and that the parsed "
